@@ -115,6 +115,7 @@ Qed.
 Lemma step_sn_file : forall c s s' i, Inv c s -> step c s (EvSnFile i) = Ok s' -> Inv c s'.
 Proof.
   intros c s s' i [hi [HP HV]] H. unfold step in H.
+  destruct (memN i (unvalidated (all_recs (segs s)))); [discriminate|].
   apply sn_step_inv in H. destruct H as [Hl ->].
   unfold running in *. proj. destruct (rc s) eqn:R; try (destruct HV as [_ [_ [_ [Hs _]]]]; rewrite Hs in Hl; discriminate).
   pose proof HV as HV0. destruct HV0 as [_ _ _ _ _ _ _ _ _ _ _ v_sns _ _ _ _].
@@ -240,12 +241,9 @@ Proof.
   intros c s s' i [hi [HP HV]] H. unfold step in H.
   apply sn_step_inv in H. destruct H as [Hl ->].
   unfold running in *. proj. destruct (rc s) eqn:R; try (destruct HV as [_ [_ [_ [Hs _]]]]; rewrite Hs in Hl; discriminate).
-  exists hi. split; [apply (pinv_flush s); auto|].
+  exists hi. split; [pframe s|].
   unfold running. proj. rewrite R.
-  assert (HV' : VInv c (set_unsynced (set_unflushed s 0) 0) hi).
-  { vinv_split HV. unfold rd_inv, pubcl in *. proj. destruct (rdp s); try assumption.
-    destruct v_rd as [F [Sx [Hidx [Huf Rest]]]]. split; [exact F|]. split; [exact Sx|]. split; [exact Hidx|]. split; [reflexivity | exact Rest]. }
-  apply (vinv_sn_pc c _ hi i SnMarked SnSynced HV'); auto; try discriminate.
+  apply (vinv_sn_pc c _ hi i SnMarked SnSynced HV); auto; try discriminate.
 Qed.
 
 Lemma step_sn_released : forall c s s' i, Inv c s -> step c s (EvSnReleased i) = Ok s' -> Inv c s'.
